@@ -190,7 +190,7 @@ def handler(case):
                    n_bins=c["n_bins"])
         try:
             r = tomtom([Q], [torch.from_numpy(t.copy()) for t in Ts], n_score_bins=c["n_bins"], n_target_bins=None,
-                       reverse_complement=c["rc"], n_jobs=1)
+                       reverse_complement=[c["rc"], numpy.bool_(c["rc"]), int(c["rc"])][k % 3], n_jobs=1)
             rec["st"] = "ok"
             rec["p"] = [float(v) for v in r[0, 0]]
             rec["score"] = [float(v) for v in r[1, 0]]
